@@ -151,8 +151,22 @@ def evalStartWindow (outs : List String) : Verdict :=
     .ok "startwindow"
   | _, _, _ => .bad "startwindow fields"
 
+/-- the same Syncer stopped and started again: a skipping head learned afterwards is synced -/
+def evalRestartSync (outs : List String) : Verdict :=
+  match kv? outs "start", kv? outs "stop", kv? outs "start2", kv? outs "verdicts", kvNat? outs "head", kvNat? outs "err", kvNat? outs "finished", kv? outs "stored", kvNat? outs "tail" with
+  | some "ok", some "ok", some "ok", some vs, some head, some err, some fin, some stored, some tail =>
+    match c03_store_ok stored head tail with
+    | some c => .prop c "restartsync"
+    | none =>
+      if vs != "accept,accept" then .prop "c03_valid_gossip_accepted" s!"verdicts={vs}" else
+      if head != 35 then .prop "c07_reaches_target" s!"after Stop/Start the head 35 was accepted but never synced: store head {head}" else
+      if err != 0 || fin != 1 then .prop "c07_state_finished" s!"err={err} finished={fin}" else .ok "restartsync"
+  | some a, some b, some c, _, _, _, _, _, _ => .prop "c07_state_finished" s!"restartsync: start={a} stop={b} start2={c}"
+  | _, _, _, _, _, _, _, _, _ => .bad "restartsync fields"
+
 /-- heads learned while a sync is running must be synced as well -/
 def evalBurst (ins outs : List String) : Verdict :=
+  if kv? ins "kind" == some "restartsync" then evalRestartSync outs else
   if kv? ins "kind" == some "startwindow" then evalStartWindow outs else
   if kv? ins "kind" == some "tailabove" then evalTailAbove ins outs else
   if kv? ins "kind" == some "duphead" then evalDupHead ins outs else
